@@ -717,6 +717,29 @@ example :
       (match step3 cfgI s (.ibc (.toIbc 5 1 2)) with | .error .insufficient => true | _ => false) &&
       (match step3 cfgI s (.ibc (.toIbc 5 1 1)) with | .ok _ => true | _ => false)) = true := by decide
 
+/-- **the IBC route, exactly**: `BaseCoinToIBCCoin` of `n` succeeds IF AND ONLY IF the holder has `n` base coins, the supply
+is at least `n`, and `n` vouchers are parked in the ibc-transfer module account — the voucher is one more alias whose escrow
+is per route, exactly like a bridge denomination (`moduleOwned_withdraw_iff`); value that came in through a bridge chain
+cannot leave through IBC beyond what came in through IBC and vice versa (the example above shows both directions) -/
+theorem ibc_route_iff (g u n : Nat) (L : Ledger) (hown : L.owner (.base g) = none) :
+    (∃ L', runFlow (baseCoinToIBCCoin g (U u) n) L = .ok L') ↔
+      (n ≤ L.bal (.base g) (U u) ∧ n ≤ L.supply (.base g) ∧ n ≤ L.bal (voucher g) T) := by
+  have hne : ¬ (Addr.chainMod 3 = Addr.user u) := by simp
+  have hne' : ¬ (Addr.user u = Addr.chainMod 3) := by simp
+  have hab : ¬ (Asset.bridge g 3 = Asset.base g) := by simp
+  have hba : ¬ (Asset.base g = Asset.bridge g 3) := by simp
+  have hadd : ∀ a : Nat, ¬ (a + n < n) := by intro a; omega
+  simp only [baseCoinToIBCCoin, U, T, voucher, ibcRoute]
+  by_cases h1 : L.bal (.base g) (.user u) < n
+  · simp [runFlow, applyPrim, h1]; try omega
+  by_cases h2 : L.supply (.base g) < n
+  · simp [runFlow, applyPrim, h1, h2, ownerOk, hown, Ledger.setBal, Ledger.setSupply, upd, hne, hne', hadd]; try omega
+  by_cases h3 : L.bal (.bridge g 3) (.chainMod 3) < n
+  · simp [runFlow, applyPrim, h1, h2, h3, ownerOk, hown, Ledger.setBal, Ledger.setSupply, upd, hne, hne', hab, hba, hadd]
+    try omega
+  · simp [runFlow, applyPrim, h1, h2, h3, ownerOk, hown, Ledger.setBal, Ledger.setSupply, upd, hne, hne', hab, hba, hadd]
+    try omega
+
 /-! ### module-owned tokens: every base coin is backed by an escrowed alias -/
 
 /-- aliases of group `g` escrowed on fxcore: the bridge denominations in the three chain module accounts and in the erc20
@@ -804,6 +827,14 @@ theorem deposit_credited_once (cfg : Cfg) (s0 : State) (ops : List Op2) (c nonce
     creditedFor (runOps2 cfg (init2 s0) ops) c nonce g ≤ claimedFor (runOps2 cfg (init2 s0) ops) c nonce g ∧
     (pendingOn (runOps2 cfg (init2 s0) ops) c nonce → creditedFor (runOps2 cfg (init2 s0) ops) c nonce g = 0) := by
   have hi := runOps2_cred cfg ops (init2 s0) (init2_cred s0)
+  exact ⟨hi.le_claimed c nonce g, hi.pend_zero c nonce g⟩
+
+/-- … for every history of the IBC layer as well (the IBC operations and deposits routed on to IBC never touch the pending
+store or what handlers credited) -/
+theorem deposit_credited_once_ibc (cfg : Cfg) (s0 : State) (ops : List Op3) (c nonce g : Nat) :
+    creditedFor (runOps3 cfg (init3 s0) ops).s2 c nonce g ≤ claimedFor (runOps3 cfg (init3 s0) ops).s2 c nonce g ∧
+    (pendingOn (runOps3 cfg (init3 s0) ops).s2 c nonce → creditedFor (runOps3 cfg (init3 s0) ops).s2 c nonce g = 0) := by
+  have hi := runOps3_cred cfg ops (init3 s0) (init2_cred s0)
   exact ⟨hi.le_claimed c nonce g, hi.pend_zero c nonce g⟩
 
 /-- … and the order matters: with "look up, handle, delete", a bridge call to a contract that re-enters
